@@ -418,6 +418,9 @@ fn parse_type_modifier(
     position: TypePosition,
     context: &Context,
 ) -> TyperResult<ir::TypeModifier> {
+    // The named type may already carry modifiers (typedef const float CF; unorm CF x;)
+    // The checks below are on the shape of the type - so look through them
+    let applied_type = context.module.type_registry.remove_modifier(applied_type);
     let tyl = context.module.type_registry.get_type_layer(applied_type);
 
     let mut full_modifier = ir::TypeModifier::new();
